@@ -6,11 +6,17 @@ from ..core import AnalysisError, u, walk_local, enclosing_stmt
 from ..lib import (construct, std_facts, def_of, copy_kind, at_least, facts_at,
                    facts_imply, calls_of_node, in_subtree)
 from .wrapper import WrapperModel
+from .common import allowed_stores, fresh_kwarg_defaults
 
 
 def run(ctx):
   prog = ctx.prog
   ctx.assume('T3')
+  allowed_stores(ctx, 'C07.defaults', {'config._get_default_configurable_parameter_values': set(), 'config._get_kwarg_defaults': set(),
+                                      'config._get_cached_arg_spec': {'_ARG_SPEC_CACHE'}},
+                 'the recorded defaults depend on the function *and* on the configurable\'s allowlist / denylist; a result cached per function '
+                 'is wrong for a second configurable backed by the same function')
+  fresh_kwarg_defaults(ctx, 'C07.defaults')
   w = WrapperModel(ctx)
   f, g, facts = w.f, w.g, w.facts
   con = construct(f)
